@@ -10,8 +10,8 @@ ID = "C03"
 LEVEL = "fault_enumeration"
 
 CLIENT = ("fd00::1", 5683)
-KINDS = ["ack", "ack_piggy", "rst", "ack_wrongmid", "rst_wrongmid", "ack_othersrc", "rst_othersrc", "ack_otherport"]
-STOPPING = {"ack", "ack_piggy", "rst"}
+KINDS = ["ack", "ack_piggy", "rst", "ack_wrongmid", "rst_wrongmid", "ack_othersrc", "rst_othersrc", "ack_otherport", "ack_piggy_wrongtoken"]
+STOPPING = {"ack", "ack_piggy", "rst", "ack_piggy_wrongtoken"}
 
 
 def make_tuning(t):
@@ -59,6 +59,9 @@ def run_case(case, want_trace=False):
                     data = R.msg(R.RST, 0, mid)
                 elif kind == "ack_piggy":
                     data = R.msg(R.ACK, R.CONTENT, mid, f["token"], payload=b"ok")
+                elif kind == "ack_piggy_wrongtoken":
+                    # acknowledges the message like any ACK with its ID; the response inside belongs to nobody
+                    data = R.msg(R.ACK, R.CONTENT, mid, bytes(f["token"]) + b"\x99", payload=b"ok")
                 else:
                     data = R.msg(R.ACK, 0, mid)
                 if kind.endswith("othersrc"):
@@ -211,7 +214,7 @@ def run_case(case, want_trace=False):
                     vio.append(V("C03/rst-wrong-outcome", repr(fut)))
                 elif abs(done["t_done"] - stop[0]) > 1e-6:
                     vio.append(V("C03/rst-fails-late", "RST at %.6f, failure at %.6f" % (stop[0], done["t_done"])))
-            elif stop[1]["code"] != 0:
+            elif stop[1]["code"] != 0 and stop[1]["token"] == copies[0]["fields"]["token"]:
                 if not fut.done() or fut.cancelled() or fut.exception() is not None:
                     vio.append(V("C03/piggyback-not-delivered", repr(fut)))
             else:
@@ -278,7 +281,7 @@ def cases_grid():
                 yield {"tuning": tun, "rng": ti, "plan": []}
                 yield {"tuning": tun, "rng": ti + 10, "plan": [], "fates": [["drop"]] * 12}
                 continue
-            for kind in ["ack", "rst", "ack_wrongmid", "ack_othersrc", "ack_piggy", "rst_wrongmid", "rst_othersrc", "ack_otherport"]:
+            for kind in ["ack", "rst", "ack_wrongmid", "ack_othersrc", "ack_piggy", "rst_wrongmid", "rst_othersrc", "ack_otherport", "ack_piggy_wrongtoken"]:
                 for frac in (0.0, 0.9, 1.1):
                     for lost in (False, True):
                         if lost and kind not in STOPPING:
@@ -344,7 +347,7 @@ def selftest():
 RULE = (
     "One CON request from a real aiocoap context to a scripted raw peer on the simulated net (virtual clock); "
     "generated: TransportTuning (ACK_TIMEOUT 0.05-8, ACK_RANDOM_FACTOR 1-3, MAX_RETRANSMIT 0-6), per-arrival reply plan "
-    "(ACK / piggybacked ACK / RST / ACK or RST with another MID / from another address or port; delays absolute or as a "
+    "(ACK / piggybacked ACK / piggybacked ACK with a foreign token / RST / ACK or RST with another MID / from another address or port; delays absolute or as a "
     "fraction of the current gap so that replies land just before/after a retransmission), per-datagram fates (drop/delay/dup), "
     "a concurrent exchange with another peer, initial MID, and earlier traffic of the same peer (ping, stray ACK/RST, CON/NON request) carrying the very message ID the CON is about to get. Oracle from wire timestamps: byte-identical copies, <= 1+MAX_RETRANSMIT, "
     "first gap in [AT, AT*ARF], later gaps exactly doubled, no copy after arrival of same-MID ACK/RST from the peer, every scheduled "
